@@ -64,6 +64,9 @@ def api_readback(ctx, c, expected):
         # nothing else appears: every path the history mentions and the specification no longer holds must be gone,
         # both for the object that was edited and for the reopened image
         have = {(ns, path) for (ns, kind, path) in exp}
+        # entries below a relocated directory are reachable through their logical ISO9660 path as well (the library
+        # follows the CL link); the expected view lists them under /RR_MOVED, so they are no ghosts
+        placeholders = [path for (ns, kind, path) in exp if kind == 'P']
         ghosts = set()
         for op in c.ops:
             for key, ns in (('iso', 'I'), ('joliet', 'J'), ('udf', 'U')):
@@ -77,6 +80,8 @@ def api_readback(ctx, c, expected):
                 ghosts.add((op['nns'].upper(), op['new']))
         for ns, p in sorted(ghosts):
             hx = '/' + '/'.join(x.encode('utf-8').hex() for x in p.split('/') if x)
+            if ns == 'I' and any(hx.startswith(ph + '/') for ph in placeholders):
+                continue
             if (ns, hx) in have or (ns == 'I' and any(h == ns and q.split('/')[-1].startswith(hx.split('/')[-1]) for h, q in have if q.rsplit('/', 1)[0] == hx.rsplit('/', 1)[0])):
                 continue
             key = {'I': 'iso_path', 'J': 'joliet_path', 'U': 'udf_path', 'R': 'rr_path'}[ns]
